@@ -242,3 +242,370 @@ Proof.
   rewrite <- (H1 (nest a + nest b) 0 (fuel_for a b)), <- (H2 (nest a + nest b) 0 (fuel_for a b));
     auto; try lia; unfold fuel_for; pose proof (wsz_le a); pose proof (wsz_le b); lia.
 Qed.
+
+(* ------------------------------------------------------------------ *)
+(* The universe for C08                                                 *)
+(* ------------------------------------------------------------------ *)
+(* keys on which Go's == (used by MapIndex) and the ranking agree: no NaN, no pointers
+   (== is identity, the ranking looks at the content), no complex numbers (== ignores the
+   magnitude / phase oracle fields), nothing unhashable *)
+Definition ckey (k : val) : bool :=
+  match k with
+  | VNil | VBool _ | VInt _ _ | VUint _ _ | VByte _ | VRune _ | VStr _ => true
+  | VFloat _ x => negb (f_isnan x)
+  | _ => false
+  end.
+
+Fixpoint wfx (v : val) : bool :=
+  match v with
+  | VSeq _ l => forallb wfx l
+  | VAssoc k v => wfx k && wfx v
+  | VMapping MCatalog ks vs => forallb wfx ks && forallb wfx vs
+  | VMapping _ ks vs => forallb ckey ks && kdistinctb ks && forallb wfx vs
+  | _ => true
+  end.
+
+(* wf: map keys are key-like intrinsics, pairwise different under the ranking *)
+Definition wf (v : val) : bool := wf0 v && wfx v.
+Definition inW (M : nat) (v : val) : bool := wf v && (nest v <=? M).
+
+Lemma wf_spec : forall v, wf v = true -> wf0 v = true /\ wfx v = true.
+Proof. intros v H. apply andb_prop in H. auto. Qed.
+Lemma inW_spec : forall M v, inW M v = true -> wf v = true /\ nest v <= M.
+Proof. intros M v H. apply andb_prop in H. destruct H as [H1 H2]. apply Nat.leb_le in H2. auto. Qed.
+Lemma inW_inU : forall M v, inW M v = true -> inU M v = true.
+Proof.
+  intros M v H. apply inW_spec in H. destruct H as [H1 H2]. apply wf_spec in H1.
+  unfold inU. apply andb_true_intro. split; [tauto|apply Nat.leb_le; auto].
+Qed.
+
+Lemma ckey_leaf : forall k, ckey k = true -> is_leaf k = true.
+Proof. destruct k; simpl; auto; discriminate. Qed.
+Lemma leaf_wfx : forall v, is_leaf v = true -> wfx v = true.
+Proof. destruct v as [ | | | | | | | | | | | | | |[]]; simpl; auto; discriminate. Qed.
+
+Lemma elems_wfx : forall a x, wfx a = true -> In x (elems a) -> wfx x = true.
+Proof.
+  intros a x. unfold elems.
+  destruct a as [ | | | | | | | | | | | |k l |k v |[] ks vs]; simpl; try tauto.
+  - intros H Hx. eapply forallb_in; eauto.
+  - intros H [Hx|[Hx|[]]]; subst; apply andb_prop in H; tauto.
+  - intros H Hx. apply andb_prop in H. destruct H as [H Hvs]. apply andb_prop in H. destruct H as [Hks _].
+    apply in_pair_elems in Hx. destruct Hx as [[k v] [H1 H2]]. simpl in H2.
+    apply zipkv_in in H1. destruct H1 as [Hk Hv].
+    destruct H2; subst; [apply leaf_wfx, ckey_leaf|]; eapply forallb_in; eauto.
+  - intros H Hx. apply andb_prop in H. destruct H as [H Hvs]. apply andb_prop in H. destruct H as [Hks _].
+    apply in_pair_elems in Hx. destruct Hx as [[k v] [H1 H2]]. simpl in H2.
+    apply zipkv_in in H1. destruct H1 as [Hk Hv].
+    destruct H2; subst; [apply leaf_wfx, ckey_leaf|]; eapply forallb_in; eauto.
+  - intros H Hx. apply andb_prop in H. destruct H as [Hks Hvs].
+    apply in_assocs in Hx. destruct Hx as [k [v [-> Hx]]].
+    apply zipkv_in in Hx. destruct Hx as [Hk Hv]. simpl.
+    rewrite (forallb_in _ _ _ Hks Hk), (forallb_in _ _ _ Hvs Hv). reflexivity.
+Qed.
+
+Lemma elems_wf : forall a x, wf a = true -> In x (elems a) -> wf x = true.
+Proof.
+  intros a x H Hx. apply wf_spec in H. destruct H as [H1 H2]. unfold wf.
+  rewrite (elems_wf0 a x H1 Hx), (elems_wfx a x H2 Hx). reflexivity.
+Qed.
+
+Lemma wf_map : forall a m, wf a = true -> view_of a = WMap m ->
+  (forall p, In p m -> ckey (fst p) = true) /\ distinct (val * val) (keyr lrank) m.
+Proof.
+  intros a m H V. apply wf_spec in H. destruct H as [_ H].
+  destruct a as [ | | | | | | | | | | | |k0 l |k0 v0 |[] ks vs]; simpl in V; try discriminate;
+  inversion V; subst; simpl in H; apply andb_prop in H; destruct H as [H Hvs];
+  apply andb_prop in H; destruct H as [Hks Hd]; (split; [|apply kdistinct_zip; auto]);
+  intros [k v] Hp; apply zipkv_in in Hp; destruct Hp as [Hk _]; simpl; eapply forallb_in; eauto.
+Qed.
+
+Lemma pair_ind_wf : forall (P : val -> val -> Prop),
+  (forall a b, wf a = true -> wf b = true ->
+     (forall x y, In x (elems a) -> In y (elems b) -> P x y) -> P a b) ->
+  forall a b, wf a = true -> wf b = true -> P a b.
+Proof.
+  intros P H a b Wa Wb. apply wf_spec in Wa, Wb. destruct Wa as [Wa Xa], Wb as [Wb Xb].
+  revert Xa Xb.
+  apply (pair_ind (fun a b => wfx a = true -> wfx b = true -> P a b)); auto.
+  clear a b Wa Wb. intros a b Wa Wb IH Xa Xb.
+  apply H; try (unfold wf; rewrite ?Wa, ?Wb, ?Xa, ?Xb; reflexivity).
+  intros x y Hx Hy. apply IH; auto; [apply (elems_wfx a)|apply (elems_wfx b)]; auto.
+Qed.
+
+(* ---------- widths ---------- *)
+(* two leaves of one coarse type carry the same width tag (int8 vs int64, float32 vs float64) *)
+Definition wcompat (a b : val) : bool :=
+  match a, b with
+  | VInt w _, VInt w' _ | VUint w _, VUint w' _ | VFloat w _, VFloat w' _ => Z.eqb w w'
+  | VComplex w _ _ _ _, VComplex w' _ _ _ _ => Z.eqb w w'
+  | _, _ => true
+  end.
+
+(* "values of one type": wherever the ranking finds two leaves (or two map keys) equal, they
+   have the same Go type, i.e. the same width tag; corresponding parts recursively *)
+Inductive same_type : val -> val -> Prop :=
+| ST : forall a b,
+    (is_leaf a = true -> is_leaf b = true -> lrank a b = Eq -> wcompat a b = true) ->
+    (forall k1 v1 k2 v2, view_of a = WAssoc k1 v1 -> view_of b = WAssoc k2 v2 ->
+       same_type k1 k2 /\ same_type v1 v2) ->
+    (forall xs ys, view_of a = WArr xs -> view_of b = WArr ys -> length xs = length ys ->
+       Forall2 same_type xs ys) ->
+    (forall m1 m2, view_of a = WMap m1 -> view_of b = WMap m2 ->
+       forall p q, In p m1 -> In q m2 -> lrank (fst p) (fst q) = Eq ->
+       wcompat (fst p) (fst q) = true /\ same_type (snd p) (snd q)) ->
+    same_type a b.
+
+(* ---------- leaves ---------- *)
+Lemma lexZ_eq_iff : forall s t, lexZ s t = Eq <-> list_eqb Z.eqb s t = true.
+Proof.
+  induction s as [|x s IH]; destruct t as [|y t]; simpl; split; intros H; try discriminate; auto.
+  - destruct (Z.compare_spec x y); try discriminate. subst. rewrite Z.eqb_refl. simpl. apply IH; auto.
+  - apply andb_prop in H. destruct H as [H1 H2]. apply Z.eqb_eq in H1. subst.
+    rewrite Z.compare_refl. apply IH; auto.
+Qed.
+
+Lemma rank_complex_lexZ : forall r1 i1 a1 p1 r2 i2 a2 p2,
+  rank_complex r1 i1 a1 p1 r2 i2 a2 p2 =
+  lexZ [f_ord a1; f_ord p1; f_ord r1; f_ord i1] [f_ord a2; f_ord p2; f_ord r2; f_ord i2].
+Proof.
+  intros. unfold rank_complex, rank_float. simpl.
+  destruct (f_ord a1 ?= f_ord a2)%Z; auto. destruct (f_ord p1 ?= f_ord p2)%Z; auto.
+  destruct (f_ord r1 ?= f_ord r2)%Z; auto. destruct (f_ord i1 ?= f_ord i2)%Z; auto.
+Qed.
+
+Lemma cmp_eqb_iff : forall c, comparison_eqb c Eq = true <-> c = Eq.
+Proof. destruct c; simpl; split; auto; discriminate. Qed.
+
+Lemma Zcmp1 : forall x y : Z, match (x ?= y)%Z with Eq => Eq | Lt => Lt | Gt => Gt end = Eq <-> Z.eqb x y = true.
+Proof.
+  intros. destruct (Z.compare_spec x y); split; intros H0; try discriminate; auto.
+  - apply Z.eqb_eq; auto.
+  - apply Z.eqb_eq in H0. lia.
+  - apply Z.eqb_eq in H0. lia.
+Qed.
+
+Ltac leaf_cases a b La Lb Ht :=
+  destruct a as [ | | | | | | | | | | | | | |[]]; try (simpl in La; discriminate La);
+  destruct b as [ | | | | | | | | | | | | | |[]]; try (simpl in Lb; discriminate Lb);
+  try (simpl in Ht; discriminate Ht); clear La Lb Ht.
+
+Lemma leq_lrank_fwd : forall a b, is_leaf a = true -> is_leaf b = true -> tyrank a = tyrank b ->
+  leq a b = true -> lrank a b = Eq.
+Proof.
+  intros a b La Lb Ht H. leaf_cases a b La Lb Ht; unfold lrank; simpl; simpl in H; auto.
+  - destruct b0, b; simpl in *; auto; discriminate.
+  - apply andb_prop in H. destruct H as [_ H]. apply Zcmp1; auto.
+  - apply andb_prop in H. destruct H as [_ H]. apply Zcmp1; auto.
+  - apply Zcmp1; auto.
+  - apply Zcmp1; auto.
+  - apply andb_prop in H. destruct H as [_ H]. apply Zcmp1; auto.
+  - apply andb_prop in H. destruct H as [_ H]. apply cmp_eqb_iff in H.
+    rewrite rank_complex_lexZ in H. exact H.
+  - apply lexZ_eq_iff; auto.
+  - apply Zcmp1; auto.
+Qed.
+
+Lemma leq_lrank_bwd : forall a b, is_leaf a = true -> is_leaf b = true -> tyrank a = tyrank b ->
+  wcompat a b = true -> lrank a b = Eq -> leq a b = true.
+Proof.
+  intros a b La Lb Ht Hw H. leaf_cases a b La Lb Ht; unfold lrank in H; simpl in H; simpl; simpl in Hw; auto.
+  - destruct b0, b; simpl in *; auto; discriminate.
+  - rewrite Hw. simpl. apply Zcmp1; auto.
+  - rewrite Hw. simpl. apply Zcmp1; auto.
+  - apply Zcmp1; auto.
+  - apply Zcmp1; auto.
+  - rewrite Hw. simpl. apply Zcmp1; auto.
+  - rewrite Hw. simpl. apply cmp_eqb_iff. rewrite rank_complex_lexZ. exact H.
+  - apply lexZ_eq_iff; auto.
+  - apply Zcmp1; auto.
+Qed.
+
+Lemma lrank_eq_ty : forall a b, lrank a b = Eq -> tyrank a = tyrank b.
+Proof.
+  intros a b H. unfold lrank, lkey in H. simpl in H.
+  destruct (Z.compare_spec (tyrank a) (tyrank b)); auto; discriminate.
+Qed.
+
+Lemma keq_ty : forall a b, keq a b = true -> tyrank a = tyrank b.
+Proof. intros a b H. destruct a, b; simpl in H; try discriminate; reflexivity. Qed.
+
+Lemma keq_leq : forall k k', ckey k = true -> ckey k' = true -> keq k k' = leq k k'.
+Proof.
+  intros k k' C C'. destruct k; try discriminate C; destruct k'; try discriminate C'; try reflexivity.
+  simpl in *. unfold f_eq_go, f_eq, f_ord.
+  apply negb_true_iff in C, C'. rewrite C, C'. simpl. reflexivity.
+Qed.
+
+Lemma keq_lrank_fwd : forall k k', ckey k = true -> ckey k' = true ->
+  keq k k' = true -> lrank k k' = Eq.
+Proof.
+  intros k k' C C' H. apply leq_lrank_fwd; auto using ckey_leaf, keq_ty.
+  rewrite <- keq_leq; auto.
+Qed.
+
+Lemma keq_lrank_bwd : forall k k', ckey k = true -> ckey k' = true ->
+  wcompat k k' = true -> lrank k k' = Eq -> keq k k' = true.
+Proof.
+  intros k k' C C' W H. rewrite keq_leq by auto.
+  apply leq_lrank_bwd; auto using ckey_leaf, lrank_eq_ty.
+Qed.
+
+Lemma lrank_eq_sym : forall a b, lrank a b = Eq -> lrank b a = Eq.
+Proof. intros a b H. rewrite lrank_anti, H. reflexivity. Qed.
+Lemma lrank_eq_trans : forall a b c, lrank a b = Eq -> lrank b c = Eq -> lrank a c = Eq.
+Proof. intros a b c H1 H2. pose proof (lrank_ctr a b c) as T. rewrite H1, H2 in T. exact T. Qed.
+
+(* ------------------------------------------------------------------ *)
+(* g. compare = true exactly when the ranking says Equal                *)
+(* ------------------------------------------------------------------ *)
+Lemma all2_forall2 {A} (r : A -> A -> bool) : forall xs ys, length xs = length ys ->
+  (all2 r xs ys = true <-> Forall2 (fun x y => r x y = true) xs ys).
+Proof.
+  induction xs as [|x xs IH]; destruct ys as [|y ys]; simpl; intros L; try discriminate.
+  - split; auto.
+  - injection L as L. rewrite andb_true_iff, (IH ys L). split.
+    + intros [H1 H2]. constructor; auto.
+    + intros H. inversion H; subst. auto.
+Qed.
+
+Lemma Forall2_impl_in {A} (P Q : A -> A -> Prop) : forall l1 l2,
+  Forall2 P l1 l2 -> (forall x y, In x l1 -> In y l2 -> P x y -> Q x y) -> Forall2 Q l1 l2.
+Proof.
+  induction 1; intros H'; constructor.
+  - apply H'; simpl; auto.
+  - apply IHForall2. intros; apply H'; simpl; auto.
+Qed.
+
+Lemma Forall2_zip_in {A} (S P Q : A -> A -> Prop) : forall l1 l2,
+  Forall2 S l1 l2 -> (forall x y, In x l1 -> In y l2 -> S x y -> (P x y <-> Q x y)) ->
+  (Forall2 P l1 l2 <-> Forall2 Q l1 l2).
+Proof.
+  induction 1; intros H'.
+  - split; constructor.
+  - assert (Forall2 P l l' <-> Forall2 Q l l') as IH
+      by (apply IHForall2; intros; apply H'; simpl; auto).
+    pose proof (H' x y (or_introl eq_refl) (or_introl eq_refl) H) as Hxy.
+    split; intros F; inversion F; subst; constructor; tauto.
+Qed.
+
+Lemma Forall2_len {A} (R : A -> A -> Prop) : forall l1 l2, Forall2 R l1 l2 -> length l1 = length l2.
+Proof. induction 1; simpl; auto. Qed.
+
+Lemma Forall2_In_l {A} (R : A -> A -> Prop) : forall l1 l2 p,
+  Forall2 R l1 l2 -> In p l1 -> exists q, In q l2 /\ R p q.
+Proof.
+  induction 1; intros Hp; [inversion Hp|].
+  destruct Hp as [->|Hp].
+  - exists y. simpl. auto.
+  - destruct (IHForall2 Hp) as [q [H1 H2]]. exists q. simpl. auto.
+Qed.
+
+Lemma lookup_unique : forall k m q, In q m -> keq k (fst q) = true ->
+  (forall q', In q' m -> keq k (fst q') = true -> q' = q) ->
+  lookup_kv k m = Some (snd q).
+Proof.
+  induction m as [|[k' v'] m IH]; intros q Hq Hk Hu; [inversion Hq|].
+  simpl. destruct (keq k k') eqn:E.
+  - rewrite <- (Hu (k', v')); simpl; auto.
+  - destruct Hq as [<-|Hq]; [simpl in Hk; congruence|].
+    apply IH; auto. intros; apply Hu; simpl; auto.
+Qed.
+
+Lemma sortk_in : forall m p, In p (sortk m) <-> In p m.
+Proof.
+  intros m p. unfold sortk. split; apply Permutation_in;
+  [apply sort_perm|apply Permutation_sym, sort_perm].
+Qed.
+
+Lemma map_case : forall a b m1 m2,
+  wf a = true -> wf b = true -> view_of a = WMap m1 -> view_of b = WMap m2 ->
+  (forall p q, In p m1 -> In q m2 -> lrank (fst p) (fst q) = Eq ->
+     wcompat (fst p) (fst q) = true /\ (pcomp (snd p) (snd q) = true <-> prank (snd p) (snd q) = Eq)) ->
+  ((length m1 =? length m2) && mapall pcomp m2 m1 = true <->
+   lex (pairr prank) (sortk m1) (sortk m2) = Eq).
+Proof.
+  intros a b m1 m2 Wa Wb Va Vb HST.
+  destruct (wf_map a m1 Wa Va) as [K1 D1]. destruct (wf_map b m2 Wb Vb) as [K2 D2].
+  assert (KL : forall p q, In p m1 -> In q m2 -> prank (fst p) (fst q) = lrank (fst p) (fst q)).
+  { intros. apply prank_leaf; apply ckey_leaf; auto. }
+  rewrite lex_eq_iff, andb_true_iff. split.
+  - intros [HL HM]. apply Nat.eqb_eq in HL. unfold mapall in HM. rewrite forallb_forall in HM.
+    assert (HM' : forall p, In p m1 -> exists q, In q m2 /\ lrank (fst p) (fst q) = Eq /\
+                   pcomp (snd p) (snd q) = true).
+    { intros p Hp. specialize (HM p Hp).
+      destruct (lookup_kv (fst p) m2) as [v2|] eqn:L; [|discriminate].
+      destruct (lookup_in _ _ _ L) as [k' [L1 L2]]. exists (k', v2). simpl.
+      repeat split; auto. apply keq_lrank_fwd; auto. apply (K2 (k', v2)); auto. }
+    assert (SM : Forall2 (fun p q => keyr lrank p q = Eq) (sortk m1) (sortk m2)).
+    { apply (sort_match _ _ keyr_lrank_refl keyr_lrank_anti keyr_lrank_ctr); auto.
+      intros p Hp. destruct (HM' p Hp) as [q [Hq [E _]]]. exists q. auto. }
+    eapply Forall2_impl_in; [exact SM|].
+    intros p q Hp Hq E. apply (proj1 (sortk_in _ _)) in Hp. apply (proj1 (sortk_in _ _)) in Hq. unfold keyr in E.
+    unfold pairr. apply cthen_eq. rewrite KL by auto. split; auto.
+    destruct (HM' p Hp) as [q' [Hq' [E' C']]].
+    assert (q' = q) as ->.
+    { destruct D2 as [_ D2]. apply D2; auto. unfold keyr.
+      apply (lrank_eq_trans _ (fst p)); auto. apply lrank_eq_sym; auto. }
+    apply (HST p q); auto.
+  - intros F.
+    assert (HL : length m1 = length m2).
+    { apply Forall2_len in F. unfold sortk in F. rewrite !sort_length in F. auto. }
+    split; [apply Nat.eqb_eq; auto|].
+    unfold mapall. apply forallb_forall. intros p Hp.
+    destruct (Forall2_In_l _ _ _ p F) as [q [Hq E]]; [apply sortk_in; auto|].
+    apply (proj1 (sortk_in _ _)) in Hq. unfold pairr in E. apply cthen_eq in E. destruct E as [E1 E2].
+    rewrite KL in E1 by auto.
+    destruct (HST p q Hp Hq E1) as [W HV].
+    assert (KQ : keq (fst p) (fst q) = true) by (apply keq_lrank_bwd; auto).
+    rewrite (lookup_unique (fst p) m2 q); auto.
+    + apply HV; auto.
+    + intros q' Hq' KQ'. destruct D2 as [_ D2]. apply D2; auto. unfold keyr.
+      apply (lrank_eq_trans _ (fst p)).
+      * apply lrank_eq_sym. apply keq_lrank_fwd; auto.
+      * auto.
+Qed.
+
+Theorem pcomp_iff_prank : forall a b, wf a = true -> wf b = true -> same_type a b ->
+  (pcomp a b = true <-> prank a b = Eq).
+Proof.
+  apply (pair_ind_wf (fun a b => same_type a b -> (pcomp a b = true <-> prank a b = Eq))).
+  intros a b Wa Wb IH ST0.
+  pose proof (wf_spec _ Wa) as [Wa0 _]. pose proof (wf_spec _ Wb) as [Wb0 _].
+  rewrite pcomp_eq, prank_tags2 by auto. unfold pcspec.
+  destruct (Z.compare_spec (tyrank a) (tyrank b)) as [E|E|E].
+  2:{ replace (tyrank a =? tyrank b)%Z with false by (symmetry; apply Z.eqb_neq; lia).
+      simpl. split; discriminate. }
+  2:{ replace (tyrank a =? tyrank b)%Z with false by (symmetry; apply Z.eqb_neq; lia).
+      simpl. split; discriminate. }
+  rewrite E, Z.eqb_refl. simpl negb. cbv iota. simpl cthen.
+  inversion ST0 as [a' b' SL SA SR SM]; subst a' b'.
+  unfold vtag, psame2.
+  destruct (view_of a) eqn:Va, (view_of b) eqn:Vb; simpl; try (split; discriminate).
+  - (* leaves *)
+    assert (La : is_leaf a = true) by (unfold is_leaf; rewrite Va; auto).
+    assert (Lb : is_leaf b = true) by (unfold is_leaf; rewrite Vb; auto).
+    split; intros H.
+    + apply leq_lrank_fwd; auto.
+    + apply leq_lrank_bwd; auto.
+  - (* associations *)
+    destruct (SA _ _ _ _ eq_refl eq_refl) as [S1 S2].
+    destruct (view_elems_assoc _ _ _ Va), (view_elems_assoc _ _ _ Vb).
+    rewrite andb_true_iff, cthen_eq. rewrite (IH k k0), (IH v v0); auto. tauto.
+  - (* arrays *)
+    rewrite lex_eq_iff, andb_true_iff. split.
+    + intros [HL HA]. apply Nat.eqb_eq in HL.
+      apply (all2_forall2 _ _ _ HL) in HA.
+      apply (Forall2_zip_in same_type (fun x y => pcomp x y = true) (fun x y => prank x y = Eq) l l0); auto.
+      intros x y Hx Hy Sxy. apply IH; auto; eapply view_elems_arr; eauto.
+    + intros F. pose proof (Forall2_len _ _ _ F) as HL. split; [apply Nat.eqb_eq; auto|].
+      apply (all2_forall2 _ _ _ HL).
+      apply (Forall2_zip_in same_type (fun x y => pcomp x y = true) (fun x y => prank x y = Eq) l l0); auto.
+      intros x y Hx Hy Sxy. apply IH; auto; eapply view_elems_arr; eauto.
+  - (* maps *)
+    apply (map_case a b); auto.
+    intros p q Hp Hq E1. destruct (SM _ _ eq_refl eq_refl p q Hp Hq E1) as [W S2].
+    split; auto. apply IH; auto.
+    + apply (pair_in_elems a m p); auto.
+    + apply (pair_in_elems b m0 q); auto.
+Qed.
